@@ -237,6 +237,17 @@ func (vc *VC) verifyBody() {
 			vc.oblige(exit, "frame", h, fi.Decl.Pos(), goal, "only the objects named in the touches clause change in field "+h)
 		}
 	}
+	// conditional frames: quietunless(cond, heaps...): when cond is false the heaps are unchanged
+	for k := range vc.quietHeaps(vc.entry, fi.Spec, recv, args, false) {
+		parts := strings.SplitN(k, "|", 2)
+		h, cond := parts[0], parts[1]
+		srt, ok := vc.heapSort[h]
+		if !ok {
+			continue
+		}
+		vc.oblige(exit, "frame", "quiet."+h, fi.Decl.Pos(), implies(not(cond), eq(vc.heapGet(exit, h, srt), vc.heapGet(vc.entry, h, srt))),
+			"heap "+h+" is left alone unless the quietunless condition holds")
+	}
 	// declared frame
 	decl := vc.declaredMods(fi.Spec, recv, args)
 	hasDecl := false
@@ -478,6 +489,22 @@ func dischargeAll(results []*FuncResult, timeout time.Duration, workdir string, 
 	}
 	close(ch)
 	wg.Wait()
+	// second chance, one at a time and with a longer limit, for queries that ran out of time while the
+	// machine was busy (an undecided query under load must not turn into an alarm)
+	retried := 0
+	for _, l := range leaves {
+		if l.res.Status == "unsat" || l.res.Status == "sat" || retried >= 12 {
+			continue
+		}
+		retried++
+		sub := *l.src
+		sub.Goal = l.goal
+		r := solve(l.src.vc.query(&sub, true), 2*timeout, workdir, l.tag+".retry", true)
+		if r.Status == "unsat" || r.Status == "sat" {
+			r.Solver += " (retry)"
+			l.res = r
+		}
+	}
 	for o, ls := range byObl {
 		total := SolveResult{Status: "unsat", All: map[string]string{}}
 		used := map[string]bool{}
@@ -560,6 +587,8 @@ func (vc *VC) assumeEntryLocks(st *State, fi *FuncInfo) {
 		vc.assume(st, fmt.Sprintf("(forall ((m Ref)) (not (select %s m)))", vc.heapGet(st, "lockR<RBMutex>", srt)))
 	}
 	vc.assume(st, fmt.Sprintf("(forall ((m Ref)) (not (select %s m)))", vc.heapGet(st, "lockW<Group.mu>", srt)))
+	vc.assume(st, fmt.Sprintf("(forall ((m Ref)) (not (select %s m)))", vc.heapGet(st, "lockR<Group.mu>", srt)))
+	vc.assume(st, fmt.Sprintf("(forall ((m Ref)) (not (select %s m)))", vc.heapGet(st, "lockR<Store.policyMu>", srt)))
 }
 
 // obligeExitLocks: every function returns with exactly the locks it was entered with.
@@ -778,6 +807,11 @@ func (vc *VC) exitEffects(exit *State, fi *FuncInfo) {
 		return
 	}
 	targets := vc.effectTargets(si)
+	wasWritten := map[string]bool{}
+	for _, g := range targets {
+		wasWritten[g] = vc.written[g]
+	}
+	// what callers will see: the effects applied to the ghost state the function was entered with
 	chk := exit.clone()
 	for _, g := range targets {
 		if e, ok := vc.entry.heap[g]; ok {
@@ -786,22 +820,17 @@ func (vc *VC) exitEffects(exit *State, fi *FuncInfo) {
 			delete(chk.heap, g)
 		}
 	}
-	wasWritten := map[string]bool{}
-	for _, g := range targets {
-		wasWritten[g] = vc.written[g]
-	}
 	vc.runEffects(chk, si, vc.entry)
+	// what the function really produces: the effects applied after the body (the body may have changed the
+	// same ghost state through its callees)
+	vc.runEffects(exit, si, vc.entry)
 	for _, g := range targets {
 		srt, ok := vc.heapSort[g]
-		if !ok {
+		if !ok || !wasWritten[g] {
 			continue
 		}
-		if wasWritten[g] {
-			vc.oblige(exit, "ghost", strings.TrimPrefix(g, "gh."), fi.Decl.End(), eq(vc.heapGet(exit, g, srt), vc.heapGet(chk, g, srt)),
-				"the ghost state produced by the body equals the ghost effects declared in the contract")
-		} else {
-			exit.heap[g] = vc.heapGet(chk, g, srt)
-		}
+		vc.oblige(exit, "ghost", strings.TrimPrefix(g, "gh."), fi.Decl.End(), eq(vc.heapGet(exit, g, srt), vc.heapGet(chk, g, srt)),
+			"the net ghost change of body and effects equals the ghost effects declared in the contract (which is what callers apply)")
 	}
 }
 
